@@ -131,6 +131,23 @@ def match_stream(ctx, family):
         ctx.cov['samples'].append({'stream': 'match-model', 'case': names[k], 'impl': impl[k][:300]})
     for i in range(n):
         ctx._distinct.add('match' + names[i] + impl[i])
+    if ctx.pid == 'C03':
+        # property oracle on the results of the model-stream inputs as well: non-increasing confidence
+        import struct
+        bad = 0
+        for i in range(n):
+            confs = []
+            for part in impl[i].split(';'):
+                f = part.strip().split(':')
+                if len(f) >= 4 and f[1].isdigit():
+                    confs.append(struct.unpack('<d', struct.pack('<Q', int(f[1])))[0])
+            if any(confs[j] < confs[j + 1] for j in range(len(confs) - 1)):
+                bad += 1
+                if bad <= 3:
+                    ctx.add_violation('oracle:ordered-by-confidence', None,
+                                      dict(stream='match-model-' + family, index=i, case=names[i],
+                                           verdict='matches not ordered by non-increasing confidence: ' + impl[i][:600] + ' confidences ' + repr(confs)))
+        ctx.cov['streams']['ordered-by-confidence'] = dict(cases=n, nontrivial=nt, mismatches=bad)
     if mism:
         i = mism[0]
         ctx.gate_breaks.append('correspondence stream match-model no longer checks: first differing case #%d (%s): impl=%s model=%s'
